@@ -57,6 +57,20 @@ func mk(name string, small bool, lit string, l ref.V, b func() any) Val {
 func extra(name string, small bool, b func() any) Val {
 	return Val{Name: name, Build: b, Extra: true, Small: small}
 }
+// Named types and a struct with byte-array fields (plain data as applications really declare it).
+type (
+	NamedBytes  []byte
+	NamedString string
+	NamedInt    int
+	NamedSlice  []int
+	NamedMap    map[string]any
+	WithBytes   struct {
+		ID    [4]byte
+		Raw   []byte
+		Named NamedBytes
+	}
+)
+
 func c(v any) func() any { return func() any { return v } }
 
 func L(vs ...ref.V) ref.List { return ref.List(vs) }
@@ -182,6 +196,29 @@ func build() []Val {
 		extra("x_l_uncomparable", false, func() any {
 			return []any{[]any{1}, map[string]any{"a": 1}, []any{1}, map[string]any{"a": 1}}
 		}),
+		// fixed-size arrays and named types: plain data too (a [16]byte id, a json.RawMessage-like type, ...)
+		extra("x_bytearr2", false, func() any { return [2]byte{'a', 'b'} }),
+		extra("x_bytearr0", false, func() any { return [0]byte{} }),
+		extra("x_bytearr16", false, func() any { return [16]uint8{1, 2, 3} }),
+		extra("x_pbytearr", false, func() any { return &[4]byte{'w', 'x', 'y', 'z'} }),
+		extra("x_l_bytearrs", false, func() any { return [][2]byte{{'a', 'b'}, {'c', 'd'}} }),
+		extra("x_struct_bytes", false, func() any { return WithBytes{ID: [4]byte{1, 2, 3, 4}, Raw: []byte("raw"), Named: NamedBytes("nb")} }),
+		extra("x_map_bytearr", false, func() any { return map[string]any{"id": [2]byte{'i', 'd'}, "raw": NamedBytes("r")} }),
+		extra("x_namedbytes", false, func() any { return NamedBytes("nb") }),
+		extra("x_namedstr", false, func() any { return NamedString("ns") }),
+		extra("x_namedint", false, func() any { return NamedInt(4) }),
+		extra("x_namedslice", false, func() any { return NamedSlice{2, 1} }),
+		extra("x_namedmap", false, func() any { return NamedMap{"a": 1} }),
+		extra("x_l_floats", false, func() any { return []float64{1.5, 0.5} }),
+		extra("x_l_bools", false, func() any { return []bool{true, false} }),
+		extra("x_l_l_ints", false, func() any { return [][]int{{2, 1}, {}} }),
+		extra("x_arr_str3", false, func() any { return [3]string{"c", "a", "b"} }),
+		extra("x_arr_any0", false, func() any { return [0]any{} }),
+		extra("x_m_l_ints", false, func() any { return map[string][]int{"l": {1, 2}} }),
+		extra("x_ppint", false, func() any { n := 6; p := &n; return &p }),
+		extra("x_i8_m1", false, func() any { return int8(-1) }),
+		extra("x_i16_m300", false, func() any { return int16(-300) }),
+		extra("x_l_i8", false, func() any { return []int8{-1, 0, 1} }),
 	}
 	return out
 }
